@@ -183,6 +183,11 @@ func checkC15(c C15Case) Outcome {
 	// sibling directories whose names start like the assembly directory's
 	tree[sel+"/regex-assembly-archive/old.ra"] = decoyContent("regex-assembly/")
 	tree[sel+"/regex-assembly.bak/932100.ra"] = decoyContent("regex-assembly/")
+	// assembly files named like a rule's in nested directories that are neither include/ nor exclude/, and a rules
+	// file holding that rule which no top-level assembly file addresses
+	tree[sel+"/regex-assembly/archive/942100.ra"] = decoyContent("regex-assembly/")
+	tree[sel+"/regex-assembly/archive/old/942110.ra"] = decoyContent("regex-assembly/")
+	tree[sel+"/rules/REQUEST-942-APPLICATION-ATTACK-SQLI.conf"] = "SecRule ARGS \"@rx stale\" \\\n    \"id:942100,\\\n    t:none\"\n\nSecRule ARGS \"@rx stale2\" \\\n    \"id:942110,\\\n    t:none\"\n"
 	// files in the include directory that are no assembly files
 	tree[sel+"/regex-assembly/include/notes.txt"] = decoyContent("regex-assembly/")
 	tree[sel+"/regex-assembly/include/data.raw"] = decoyContent("regex-assembly/")
